@@ -124,11 +124,15 @@ func init() {
 	})
 	register(&PropSpec{
 		ID: "C13", Level: "model_checking",
-		Rule: "explicit-state BFS by replay (crash at every effect op, restart, tip changes between steps) of both Liquid taker roles; oracle walks the ordered log of durable writes and sends",
+		Rule: "explicit-state BFS by replay (crash at every effect op, restart, tip changes between steps; deviation: the persisted record loses its anchor - as a record from a build without the anchor would look - and the node recovers from it) of both Liquid taker roles; oracle walks the ordered log of durable writes and sends",
 		Families: func(tier string) []Family {
 			return mkFamilies(famOpt{chains: []string{"lbtc"}, roles: takers, backends: bothBack,
 				flags:  scn.Flags{Blocks: true, Time: true, Restart: true, Drop: true, MaxTime: 2, MaxBlocks: 3, NoCsvJump: true},
-				bounds: pick(tier, mc.Bounds{MaxDepth: 9, MaxDev: 2, Budget: 60 * time.Second}, mc.Bounds{MaxDepth: 12, MaxDev: 3, Budget: 8 * time.Minute})})
+				bounds: pick(tier, mc.Bounds{MaxDepth: 9, MaxDev: 2, Budget: 60 * time.Second}, mc.Bounds{MaxDepth: 12, MaxDev: 3, Budget: 8 * time.Minute}),
+				tweak: func(f *Family) {
+					f.Cfg.ExtraEnabled, f.Cfg.ExtraApply = c13Enabled, c13Apply
+					f.Cfg.ExtraKey = func(x *scn.Exec) string { return fmt.Sprintf("|stripped=%v", x.Ctx["c13strip"] != nil) }
+				}})
 		},
 		Oracles:      []scn.Oracle{oracleC13},
 		NeedOutcomes: []string{"State_ClaimedPreimage"},
@@ -192,6 +196,7 @@ func init() {
 			return append(out, late...)
 		},
 		Oracles:      []scn.Oracle{oracleC07},
+		Extra:        c07Watchers,
 		NeedOutcomes: []string{"State_ClaimedCsv", "State_ClaimedCoop", "State_ClaimedPreimage"},
 	})
 	register(&PropSpec{
